@@ -516,11 +516,11 @@ spif_socket_send(spif_socket_t self, spif_str_t data)
                 break;
             case EIO:
             case EPIPE:
-                close(self->fd);
-                /* Drop */
             case EBADF:
             case EINVAL:
             default:
+                /* Whatever went wrong, release the descriptor before forgetting it. */
+                close(self->fd);
                 self->fd = -1;
                 SPIF_SOCKET_FLAGS_CLEAR(self, SPIF_SOCKET_FLAGS_IOSTATE);
                 return FALSE;
